@@ -82,6 +82,10 @@ def resolve_params(
 
             if isinstance(resolved, Mapping):
                 for key, value in resolved.items():
+                    # Same as Python's `fn(**mapping)`. NOTE: A `None` key would otherwise be taken
+                    # for a positional argument, because `TagParam.key is None` means "positional".
+                    if not isinstance(key, str):
+                        raise TypeError(f"Invalid parameters for tag '{tag}': keywords must be strings, got {key!r}")
                     resolved_params.append(TagParam(key=key, value=value))
             elif isinstance(resolved, Iterable):
                 for value in resolved:
